@@ -14,6 +14,11 @@ from .tab import Tab
 from .trace import lift, sym, val_of
 
 
+# relative tolerance of the float64 replays of scale-free equalities: a few hundred ulps of the largest input magnitude
+# (the sums involved have a handful of terms); counterexamples are pushed above it by the solver (harness._refine)
+REPLAY_RTOL = 1e-13
+
+
 def solver_class(name):
     import mdpax.solvers as ms
     return {
